@@ -43,10 +43,11 @@ CONFIG = {'gen': ['SmbCommands'],
               'truncation / corruption / field-extreme / splice campaign against the real code with every panic or timeout reported as a '
               'violation keyed by the innermost repo function',
  'level_text': 'SMB commands: the kernel decides on the unmarshal programs regenerated from /repo that in all 115 command structures every '
-               'slice and index expression is dominated by a length check that implies it (smb_all_commands_guarded; a dropped or weakened '
-               'guard makes the theorem fail and the campaign then looks for the panicking input); the static predicate is proved sound '
-               'for the IR semantics (guarded_sound, std_honest), hence smb_decode_total: decodeCmd std c env0 data != panic for each of '
-               'the 115 commands and every input; the envelope split and the 14 nested wire types never panic and report 0 < n <= '
+               'slice and index expression — the P[4:] of the AndX stanza included, which is accepted only behind the AndX.Unmarshal(P) '
+               'that fails below four bytes — is dominated by a length check that implies it (smb_all_commands_guarded; a dropped or '
+               'weakened guard makes the theorem fail and the campaign then looks for the panicking input); the static predicate is proved '
+               'sound for the IR semantics (guarded_sound, std_honest), hence smb_decode_total: decodeCmd std c env0 data != panic for '
+               'each of the 115 commands and every input; the envelope split and the 14 nested wire types never panic and report 0 < n <= '
                'len(data) (smb_split_total, *_decode_total, *_decode_bounded). Every other decoding entry point is covered by a proved '
                'theorem about its hand model, for all inputs: ntlm_challenge_parse_total, ntlm_target_info_total, spnego_extract_total, '
                'spnego_neg_token_resp_total, spnego_process_challenge_total; llmnr_decode_message_total, llmnr_decode_name_total, '
